@@ -79,12 +79,45 @@ def gen_scenario(rng):
     return {"world": w, "requests": reqs + [last], "env0": env0}
 
 
+def gen_scenario_cli(rng):
+    """the same scenarios with every request made through the command-line front end (setupcmd.EupsSetup.execute: the
+    translation of --just / --max-depth / --keep / --unsetup into the Eups object and the eups.setup call), the final
+    request leaning towards the option combinations: --just or --max-depth together with --unsetup, --just on a product
+    that is set up at another version, --keep"""
+    s = gen_scenario(rng)
+    reqs = [dict(r) for r in s["requests"]]
+    last = reqs[-1]
+    r = rng.random()
+    if r < 0.45 and len(reqs) >= 1:
+        # set something up first (with its dependencies), then unsetup it under --just / --max-depth
+        name = last["name"]
+        first = {"name": name, "fwd": True}
+        if last.get("version") and last["version"] != "9.9":
+            first["version"] = last["version"]
+        reqs = reqs[:-1] + [first]
+        last = {"name": name, "fwd": False}
+        if rng.random() < 0.6:
+            last["just"] = True
+        else:
+            last["max_depth"] = rng.choice([0, 1, 1, 2])
+    elif last.get("just") and last.get("max_depth") is not None:
+        del last["max_depth"]
+    reqs = reqs[:-1] + [last]
+    for q in reqs:
+        q["cli"] = True
+        q.pop("tag", None)
+    s["requests"] = reqs
+    return s
+
+
 def oracle(ctx, s, res):
     rec = res["records"][-1]
     rq = rec["request"]
     shape = ("keep" if rq.get("keep") else "just" if rq.get("just") else
              "maxdepth%s" % rq["max_depth"] if rq.get("max_depth") is not None else
              "unsetup" if not rq.get("fwd", True) else "plain")
+    if rq.get("cli"):
+        shape = "cli:" + shape + ("" if rq.get("fwd", True) or shape == "unsetup" else "+unsetup")
     before, after = rec["before"], rec["after"]
     sb, sa = S.setup_records(before), S.setup_records(after)
     ctx.count(1, key="%s/%s/%d-set-up-before" % (shape, "ok" if rec["ok"] else "failed", min(len(sb), 4)),
@@ -157,6 +190,10 @@ def run(ctx):
         ctx.sample({"requests": s["requests"], "env0": s["env0"], "products": s["world"]["products"]})
     for i in range(0, len(scenarios), 400):
         S.run_scenarios(ctx, scenarios[i:i + 400], oracle)
+    # the same through the command-line front end (setupcmd.EupsSetup)
+    cli = [gen_scenario_cli(ctx.rng) for _ in range(ctx.size(120, 1500))]
+    for i in range(0, len(cli), 400):
+        S.run_scenarios(ctx, cli[i:i + 400], oracle)
     # --keep / --just / --max-depth / unsetup on worlds with version names of C10's grammar: the composed model with the
     # real comparator (coq/Model/ResolveReal.v) decides every version
     versions = [s for s in S.directed_version_scenarios() if len(s["requests"]) == 3] + \
